@@ -11,6 +11,7 @@ VacOK(e) == \A o \in 1..Len(e.outs) : e.outs[o].panic # "" \/ MulMeaningful(e, e
 BeOK(e) == e.inputs_same /\ \A o1, o2 \in 1..Len(e.outs) : o1 # o2 => \A x \in Who(e, o1), y \in Who(e, o2) : x.f # y.f
 FillOK(e) == \A o1, o2 \in 1..Len(e.outs) : o1 # o2 => \A x \in Who(e, o1), y \in Who(e, o2) : x.b # y.b
 ScrOK(e) == \A r \in 1..Len(e.scr) : \A c \in 1..Len(e.scr[r].calls) : CallOK(e.scr[r].calls[c])
+ScrMemOK(e) == \A r \in 1..Len(e.scr) : \A c \in 1..Len(e.scr[r].calls) : CallMemOK(e.scr[r].calls[c])
 Ran(e) == e.a.rank # -1
 Verdict(e, k) ==
   IF ~Ran(e) THEN << <<k, "sem">> >> \o (IF ScrOK(e) THEN <<>> ELSE << <<k, "scr">> >>)
@@ -20,6 +21,7 @@ Verdict(e, k) ==
   \o (IF BeOK(e) THEN <<>> ELSE << <<k, "be">> >>)
   \o (IF FillOK(e) THEN <<>> ELSE << <<k, "fill">> >>)
   \o (IF ScrOK(e) THEN <<>> ELSE << <<k, "scr">> >>)
+  \o (IF ScrMemOK(e) THEN <<>> ELSE << <<k, "scrmem">> >>)
 Init == i = 1 /\ bad = <<>>
 Next == /\ i <= Len(Rec) /\ i' = i + 1 /\ bad' = bad \o Verdict(Rec[i], i)
 Spec == Init /\ [][Next]_vars
